@@ -2,9 +2,16 @@
 package c11
 
 import (
+	"bufio"
 	"encoding/json"
 	"fmt"
+	"os"
+	"os/exec"
+	"runtime/debug"
+	"sort"
+	"strconv"
 	"strings"
+	"sync"
 
 	"verif/engine/core"
 	"verif/gen/keys"
@@ -63,12 +70,12 @@ func libView(p string) string {
 	return p
 }
 
-func Run(r *core.Run) {
-	r.Rule = "3 documents x RFC 6902 patch lists over 6 operation kinds x 32 path pointers x 32 from pointers x 3 values: all single operations; pairs (copy|move ; any operation at or below that operation's target or source, or moving/copying from there) in quick, all ordered pairs in thorough; " +
-		"oracle: validated and applied => publicKey and service members deep-equal to the input's; distinct = distinct patch lists that validate and apply; non-trivial = the list validates and applies"
-	r.Assumptions = []string{"operations whose from is a token prefix of their path (copy/move into own subtree) are left to C19 (they can crash the pinned RFC 6902 library)",
-		"a panic inside ApplyPatches counts as not applied here (C19 judges it)"}
-	dc := doccomposer.New()
+type setup struct {
+	docs    []string
+	singles []op
+}
+
+func build() setup {
 	k1 := ops.PubKeyJSON("k1", keys.New("P-256", 40), `["authentication"]`)
 	k2 := ops.PubKeyJSON("k2", keys.New("Ed25519", 40), `["assertionMethod"]`)
 	docs := []string{
@@ -89,10 +96,30 @@ func Run(r *core.Run) {
 			singles = append(singles, op{"move", p, f, ""}, op{"copy", p, f, ""})
 		}
 	}
-	r.Extra["single_operations"] = len(singles)
+	return setup{docs, singles}
+}
 
+type vline struct {
+	ID, Key, What string
+	Detail        map[string]any
+}
+
+// Worker executes the items [start,end) (item = document index * len(singles) + index of the first operation) and
+// prints "B <item>" before each item, "V <json>" per violation, "S <evals> <applied> <notapplicable>" and "E" at the end.
+// Running in a child process contains fatal errors of the code under test (a cyclic document built by the RFC 6902
+// library kills the process): the parent restarts after the item that died.
+func Worker(args []string) {
+	start, _ := strconv.Atoi(args[0])
+	end, _ := strconv.Atoi(args[1])
+	thorough := args[2] == "thorough"
+	debug.SetMaxStack(64 << 20)
+	su := build()
+	dc := doccomposer.New()
+	w := bufio.NewWriterSize(os.Stdout, 1<<16)
+	defer w.Flush()
+	var evals, applied, notApplicable int64
 	type list []op
-	judge := func(di int, l list) *core.Fail {
+	judge := func(di int, l list) *vline {
 		var js []string
 		var ks []string
 		for _, o := range l {
@@ -100,6 +127,7 @@ func Run(r *core.Run) {
 			ks = append(ks, o.key())
 		}
 		text := "[" + strings.Join(js, ",") + "]"
+		evals++
 		p, err := patch.NewJSONPatch(text)
 		if err != nil {
 			return nil
@@ -107,7 +135,7 @@ func Run(r *core.Run) {
 		if patchvalidator.Validate(p) != nil {
 			return nil
 		}
-		doc, err := document.FromBytes([]byte(docs[di]))
+		doc, err := document.FromBytes([]byte(su.docs[di]))
 		if err != nil {
 			core.Engine("c11 doc: %v", err)
 		}
@@ -121,87 +149,203 @@ func Run(r *core.Run) {
 			res, err = dc.ApplyPatches(doc, []patch.Patch{p})
 		}()
 		if err != nil || res == nil {
-			r.Class("validated-not-applicable")
+			notApplicable++
 			return nil
 		}
-		r.Class("validated-applied")
-		r.Observe(fmt.Sprint(di), text)
+		applied++
 		var before, after map[string]any
-		_ = json.Unmarshal([]byte(docs[di]), &before)
+		_ = json.Unmarshal([]byte(su.docs[di]), &before)
 		b, _ := json.Marshal(res)
 		_ = json.Unmarshal(b, &after)
 		for _, member := range []string{"publicKey", "service"} {
 			x, xok := before[member]
 			y, yok := after[member]
 			if xok != yok || !jcs.Equal(norm(x), norm(y)) {
-				return &core.Fail{Key: strings.Join(ks, " ; "), What: fmt.Sprintf("validated json patch %s changed %q: %s -> %s", text, member, core.J(x), core.J(y)),
-					Detail: map[string]any{"document": docs[di], "patch": text, "member": member, "before": x, "after": y}}
+				return &vline{ID: fmt.Sprintf("doc%d|%s", di, strings.Join(js, " ; ")), Key: strings.Join(ks, " ; "),
+					What:   fmt.Sprintf("validated json patch %s changed %q: %s -> %s", text, member, core.J(x), core.J(y)),
+					Detail: map[string]any{"document": su.docs[di], "patch": text, "member": member, "before": x, "after": y}}
 			}
 		}
 		return nil
 	}
+	only := os.Getenv("VERIF_ONLY")
 	run := func(di int, l list) {
-		id := fmt.Sprintf("doc%d|", di)
-		for i, o := range l {
-			if i > 0 {
-				id += " ; "
-			}
-			id += o.json()
-		}
-		if !r.Want(id) {
-			return
-		}
-		if f := judge(di, l); f != nil {
-			r.Case(id, func() *core.Fail { return judge(di, l) })
-		} else {
-			r.Eval(1)
-		}
-	}
-	for di := range docs {
-		di := di
-		core.Parallel(len(singles), func(i int) { run(di, list{singles[i]}) })
-		// pairs
-		core.Parallel(len(singles), func(i int) {
-			a := singles[i]
-			if r.Thorough() {
-				for _, b := range singles {
-					run(di, list{a, b})
+		if only != "" {
+			id := fmt.Sprintf("doc%d|", di)
+			for i, o := range l {
+				if i > 0 {
+					id += " ; "
 				}
+				id += o.json()
+			}
+			if id != only {
 				return
 			}
-			if a.kind != "copy" && a.kind != "move" {
-				return
-			}
-			var xs []string
-			for _, base := range []string{a.path, a.from} {
-				for _, suf := range []string{"", "/0", "/0/id", "/-", "/id", "/1"} {
-					xs = append(xs, base+suf)
+		}
+		if v := judge(di, l); v != nil {
+			// confirm twice
+			for k := 0; k < 2; k++ {
+				if g := judge(di, l); g == nil || g.Key != v.Key {
+					core.Engine("c11: verdict did not reproduce for %s", v.ID)
 				}
 			}
-			for _, x := range xs {
-				for _, v := range values {
-					run(di, list{a, op{"add", x, "", v}})
-					run(di, list{a, op{"replace", x, "", v}})
-					run(di, list{a, op{"test", x, "", v}})
-				}
-				run(di, list{a, op{"remove", x, "", ""}})
-				for _, y := range []string{"/publicKey", "/publicKey/0", "/publicKey/-", "/service", "/service/0", "/zz2", "/other"} {
-					if !(x != y && isPrefix(x, y)) {
-						run(di, list{a, op{"move", y, x, ""}})
-						run(di, list{a, op{"copy", y, x, ""}})
-					}
-					if !(x != y && isPrefix(y, x)) {
-						run(di, list{a, op{"move", x, y, ""}})
-						run(di, list{a, op{"copy", x, y, ""}})
-					}
-				}
-			}
-		})
+			b, _ := json.Marshal(v)
+			fmt.Fprintf(w, "V %s\n", b)
+		}
 	}
-	r.Sample(map[string]any{"document": docs[1], "patch": `[{"op":"copy","from":"/other","path":"/zz"},{"op":"replace","path":"/zz/0/id","value":"s"}]`})
-	r.Sample(map[string]any{"document": docs[0], "patch": `[{"op":"move","from":"/publicKeyX","path":"/zz"}]`})
+	n := len(su.singles)
+	for item := start; item < end; item++ {
+		fmt.Fprintf(w, "B %d\n", item)
+		w.Flush()
+		di, i := item/n, item%n
+		a := su.singles[i]
+		run(di, list{a})
+		if thorough {
+			for _, b := range su.singles {
+				run(di, list{a, b})
+			}
+			continue
+		}
+		if a.kind != "copy" && a.kind != "move" {
+			continue
+		}
+		var xs []string
+		for _, base := range []string{a.path, a.from} {
+			for _, suf := range []string{"", "/0", "/0/id", "/-", "/id", "/1"} {
+				xs = append(xs, base+suf)
+			}
+		}
+		for _, x := range xs {
+			for _, v := range values {
+				run(di, list{a, op{"add", x, "", v}})
+				run(di, list{a, op{"replace", x, "", v}})
+				run(di, list{a, op{"test", x, "", v}})
+			}
+			run(di, list{a, op{"remove", x, "", ""}})
+			for _, y := range []string{"/publicKey", "/publicKey/0", "/publicKey/-", "/service", "/service/0", "/zz2", "/other"} {
+				if !(x != y && isPrefix(x, y)) {
+					run(di, list{a, op{"move", y, x, ""}})
+					run(di, list{a, op{"copy", y, x, ""}})
+				}
+				if !(x != y && isPrefix(y, x)) {
+					run(di, list{a, op{"move", x, y, ""}})
+					run(di, list{a, op{"copy", x, y, ""}})
+				}
+			}
+		}
+	}
+	fmt.Fprintf(w, "S %d %d %d\nE\n", evals, applied, notApplicable)
+}
+
+func Run(r *core.Run) {
+	r.Rule = "3 documents x RFC 6902 patch lists over 6 operation kinds x 32 path pointers x 32 from pointers x 3 values: all single operations; pairs (copy|move ; any operation at or below that operation's target or source, or moving/copying from there) in quick, all ordered pairs in thorough; " +
+		"oracle: validated and applied => publicKey and service members deep-equal to the input's; distinct = patch lists that validate and apply (counted); non-trivial = the list validates and applies"
+	r.Assumptions = []string{"operations whose from is a token prefix of their path (copy/move into own subtree, in the RFC 6902 library's reading of the pointers) are left to C19 (they can kill the process)",
+		"a panic inside ApplyPatches counts as not applied here (C19 judges it); the enumeration runs in child processes so that a fatal error of the code under test costs one item, not the check"}
+	su := build()
+	r.Extra["single_operations"] = len(su.singles)
+	self, err := os.Executable()
+	if err != nil {
+		core.Engine("c11: %v", err)
+	}
+	total := len(su.docs) * len(su.singles)
+	workers := 16
+	per := (total + workers - 1) / workers
+	var mu sync.Mutex
+	var lost []string
+	var wg sync.WaitGroup
+	for wk := 0; wk < workers; wk++ {
+		s, e := wk*per, (wk+1)*per
+		if e > total {
+			e = total
+		}
+		if s >= e {
+			continue
+		}
+		wg.Add(1)
+		go func(s, e int) {
+			defer wg.Done()
+			for s < e {
+				cmd := exec.Command(self, "c11worker", strconv.Itoa(s), strconv.Itoa(e), r.Tier)
+				cmd.Env = os.Environ()
+				out, _ := cmd.StdoutPipe()
+				var stderr strings.Builder
+				cmd.Stderr = &stderr
+				if err := cmd.Start(); err != nil {
+					core.Engine("c11: worker: %v", err)
+				}
+				sc := bufio.NewScanner(out)
+				sc.Buffer(make([]byte, 1<<20), 1<<24)
+				last, finished := s-1, false
+				for sc.Scan() {
+					line := sc.Text()
+					switch {
+					case strings.HasPrefix(line, "B "):
+						last, _ = strconv.Atoi(line[2:])
+					case strings.HasPrefix(line, "V "):
+						var v vline
+						if json.Unmarshal([]byte(line[2:]), &v) == nil {
+							r.Report(v.ID, core.Fail{Key: v.Key, What: v.What, Detail: v.Detail})
+						}
+					case strings.HasPrefix(line, "S "):
+						var ev, ap, na int64
+						fmt.Sscanf(line[2:], "%d %d %d", &ev, &ap, &na)
+						r.Eval(ev)
+						r.AddDistinct(ap)
+						mu.Lock()
+						r.Extra["validated_applied"] = asInt64(r.Extra["validated_applied"]) + ap
+						r.Extra["validated_not_applicable"] = asInt64(r.Extra["validated_not_applicable"]) + na
+						mu.Unlock()
+					case line == "E":
+						finished = true
+					}
+				}
+				werr := cmd.Wait()
+				if finished && werr == nil {
+					return
+				}
+				if last < s {
+					core.Engine("c11: worker died before announcing an item: %v\n%s", werr, tailStr(stderr.String(), 1500))
+				}
+				first := stderr.String()
+				if k := strings.Index(first, "\n"); k > 0 {
+					first = first[:k]
+				}
+				mu.Lock()
+				lost = append(lost, fmt.Sprintf("item %d (document %d, first operation %s): %s", last, last/len(su.singles), su.singles[last%len(su.singles)].json(), first))
+				mu.Unlock()
+				s = last + 1
+			}
+		}(s, e)
+	}
+	wg.Wait()
+	if len(lost) > 0 {
+		sort.Strings(lost)
+		r.Extra["items_lost_to_fatal_errors_of_the_code_under_test"] = lost
+		r.Cap(fmt.Sprintf("%d items lost to fatal errors of the code under test (judged by C19, not here)", len(lost)))
+	}
+	for i := int64(0); i < asInt64(r.Extra["validated_applied"]) && i < 1000; i++ {
+		r.Class("validated-applied")
+	}
+	for i := int64(0); i < asInt64(r.Extra["validated_not_applicable"]) && i < 1000; i++ {
+		r.Class("validated-not-applicable")
+	}
+	r.Sample(map[string]any{"document": su.docs[1], "patch": `[{"op":"copy","from":"/other","path":"/zz"},{"op":"replace","path":"/zz/0/id","value":"s"}]`})
+	r.Sample(map[string]any{"document": su.docs[0], "patch": `[{"op":"move","from":"/publicKeyX","path":"/zz"}]`})
 	r.Require("validated-applied", 500)
 	r.Require("validated-not-applicable", 100)
+}
+
+func asInt64(v any) int64 {
+	i, _ := v.(int64)
+	return i
+}
+
+func tailStr(s string, n int) string {
+	if len(s) > n {
+		return s[len(s)-n:]
+	}
+	return s
 }
 
 func norm(v any) any {
